@@ -256,7 +256,23 @@ theorem blocktx_preserves_nonempty (cfg : BlockTx.Cfg) (hA : cfg.overwriteMigrat
     exact ⟨this.2.2.2, by simp [oldView, this.2.1, this.2.2.1]⟩
   · rcases hm.2 he with m | u
     · right; rw [← he]; exact m.2.2.2
-    · left; exact u.2.2.2
+    · rcases u.2.2.2 with u0 | u0
+      · left; exact u0
+      · right; rw [← he]; exact u0
+
+/-- An ingest ERROR inside a range (a failed read of a header / of the old entries / `Has` at the
+range's `k`-th block): the worker's batch is still written (`Done` hands it to the committer), but it
+holds only the new entries of the blocks before `k` — the deletion of the range's old entries is added
+after the loop. For every database and every position of the error, the old transaction and receipt
+entries of EVERY block are exactly what they were; hence (`blocktx_preserves_nonempty`, whose steps
+include `ingestError`) a restart redoes the range and nothing is lost. A change that puts the
+deletion before the loop breaks the correspondence with this model on the first injected read error
+and is caught by the content oracle after the restart. -/
+theorem blocktx_partial_batch_keeps_old_data (cfg : BlockTx.Cfg) (db : Db) (f h r k b : Nat) :
+    oldView ((applyPartial cfg db f h r k).blk b) = oldView (db.blk b) ∧
+    ((applyPartial cfg db f h r k).blk b).hdr = (db.blk b).hdr := by
+  have := applyPartial_keeps_old cfg db f h r k b
+  exact ⟨by simp [oldView, this.1, this.2.1], this.2.2⟩
 
 /-- Reachability: the database as the previous layout wrote it satisfies `Inv` (so do, by
 `blocktx_preserves_nonempty`, all images reachable from it). -/
@@ -327,7 +343,8 @@ during one `Migrate` call (cancelled after any number of blocks, death with any 
 handed-out blocks committed): only `StateDiffLength` of retained blocks changes, and only to the
 block's state-diff length; the checkpoint the runner keeps afterwards is sound (every retained
 block below it is backfilled — after a death that is the OLD checkpoint); `(nil, nil)` means every
-retained block is backfilled; the migration fails only when a batch write fails. -/
+retained block is backfilled; the migration fails only when a batch write or a read fails (`writeFail`:
+an error inside the pipeline with any subset of the handed-out blocks committed). -/
 theorem statedifflength_checkpoint_sound (db : SDL.Db) (h o next : Nat) (hr : SDL.Retained db h o)
     (hg : SDL.Good db o next) (st : SDL.Step) :
     SDL.Step' db (SDL.migrate db next st).1 o h ∧
